@@ -12,7 +12,7 @@ from vmon.util import Mon
 
 ID = 'C08'
 RULE = ('crystal pool x random inputs (all groups randomised, sigma 0.3..1) x omega2 scaling 10^k, k=-3..16 (all omega2 barriers '
-        'lowered by k ln10); forced algorithm pairs for k<=6, default selection for all k; non-trivial = scaling changes Lss by '
+        'lowered by k ln10, and - when there are several exchange classes - the first class alone); forced algorithm pairs for k<=6, default selection for all k; non-trivial = scaling changes Lss by '
         '>1e-9 relative; distinct = (crystal, Nthermo, input, k)')
 ASSUMPTIONS = ['agreement tolerance 1e-6 x scale for scalings <= 1e6 (observed 6e-8 FCC, 7e-10 HCP)',
                'smooth approach: for k >= 9 the step |L(10^(k+1)) - L(10^k)| must not exceed max(3 x previous step, 1e-6 x scale), and '
@@ -51,44 +51,48 @@ def run_case(case):
             tags0 = work_vac.regime_tags(diff, base)
             desc = {'crystal': name, 'Nthermo': nth, 'args': base}
             if sample is None: sample = desc
-            prev, prevstep, L0scale = None, None, None
-            for kk in range(-3, 17):
-                args = [x.copy() for x in base]
-                args[5] = args[5] - kk * np.log(10.)
-                tags = work_vac.regime_tags(diff, args) + [t for t, k0 in (('om2_scaling>=1e4', 4), ('om2_scaling>=1e6', 6), ('om2_scaling>=1e8', 8), ('om2_scaling>=1e9', 9)) if kk >= k0]
-                try:
-                    Ld = [np.array(x) for x in diff.Lij(*args)]
-                    pair = None
-                    if kk <= 6:
-                        pair = ([np.array(x) for x in diff.Lij(*args, large_om2=0.)],
-                                [np.array(x) for x in diff.Lij(*args, large_om2=np.inf)])
-                except Exception as e:
-                    import traceback
-                    mon.fail('C08:Lij:raises:' + type(e).__name__, 'scaling 1e%d %s %s' % (kk, traceback.format_exc()[-500:], desc), tags)
-                    continue
-                sc = max(np.abs(Ld[0]).max(), np.abs(Ld[1]).max(), 1e-300) if L0scale is None else L0scale
-                if L0scale is None: L0scale = sc
-                dt = lambda: 'scaling 1e%d %s' % (kk, desc)
-                fin = all(np.all(np.isfinite(x)) for x in Ld)
-                mon.check(fin, 'C08:finite', dt, tags)
-                if not fin: continue
-                for nm, x in zip(('L0vv', 'Lss', 'L1vv'), (Ld[0], Ld[1], Ld[3])):
-                    mon.close(x, x.T, 1e-6, 'C08:symmetric:' + nm, dt, tags, scale=max(sc, np.abs(x).max()))
-                if pair is not None:
-                    for nm, a, b in zip(('L0vv', 'Lss', 'Lsv', 'L1vv'), pair[0], pair[1]):
-                        mon.close(a, b, 1e-6, 'C08:algorithms-agree:' + nm, dt, tags, scale=max(sc, np.abs(b).max()))
-                    for nm, a, b in zip(('L0vv', 'Lss', 'Lsv', 'L1vv'), Ld, pair[1]):
-                        mon.close(a, b, 1e-6, 'C08:default=standard:' + nm, dt, tags, scale=max(sc, np.abs(b).max()))
-                if prev is not None:
-                    steps = [np.abs(a - b).max() for a, b in zip(Ld[1:], prev[1:])]
-                    if kk >= 9 and prevstep is not None:
-                        for nm, st, pst, x in zip(('Lss', 'Lsv', 'L1vv'), steps, prevstep, Ld[1:]):
-                            mon.check(st <= max(3 * pst, 1e-6 * max(sc, np.abs(x).max())), 'C08:smooth-limit:' + nm,
-                                      lambda: 'step %.3e after %.3e at scaling 1e%d (scale %.3e) %s=%s %s' % (st, pst, kk, sc, nm, x.tolist(), desc), tags)
-                            mon.count('eval:C08:smooth-limit')
-                    if max(steps) > 1e-9 * sc: mon.sig([name, nth, k, kk])
-                    prevstep = steps
-                prev = Ld
+            # split: only the first exchange class is scaled, the others keep ordinary rates (two exchange rates that differ by
+            # many orders of magnitude inside the large-rate algorithm)
+            for split in ((False, True) if len(base[5]) > 1 else (False,)):
+                prev, prevstep, L0scale = None, None, None
+                for kk in range(-3, 17):
+                    args = [x.copy() for x in base]
+                    if split: args[5][0] = args[5][0] - kk * np.log(10.)
+                    else: args[5] = args[5] - kk * np.log(10.)
+                    tags = work_vac.regime_tags(diff, args) + [t for t, k0 in (('om2_scaling>=1e4', 4), ('om2_scaling>=1e6', 6), ('om2_scaling>=1e8', 8), ('om2_scaling>=1e9', 9)) if kk >= k0] + (['om2_split'] if split else [])
+                    try:
+                        Ld = [np.array(x) for x in diff.Lij(*args)]
+                        pair = None
+                        if kk <= 6:
+                            pair = ([np.array(x) for x in diff.Lij(*args, large_om2=0.)],
+                                    [np.array(x) for x in diff.Lij(*args, large_om2=np.inf)])
+                    except Exception as e:
+                        import traceback
+                        mon.fail('C08:Lij:raises:' + type(e).__name__, 'scaling 1e%d %s %s' % (kk, traceback.format_exc()[-500:], desc), tags)
+                        continue
+                    sc = max(np.abs(Ld[0]).max(), np.abs(Ld[1]).max(), 1e-300) if L0scale is None else L0scale
+                    if L0scale is None: L0scale = sc
+                    dt = lambda: 'scaling 1e%d%s %s' % (kk, ' (first exchange class only)' if split else '', desc)
+                    fin = all(np.all(np.isfinite(x)) for x in Ld)
+                    mon.check(fin, 'C08:finite', dt, tags)
+                    if not fin: continue
+                    for nm, x in zip(('L0vv', 'Lss', 'L1vv'), (Ld[0], Ld[1], Ld[3])):
+                        mon.close(x, x.T, 1e-6, 'C08:symmetric:' + nm, dt, tags, scale=max(sc, np.abs(x).max()))
+                    if pair is not None:
+                        for nm, a, b in zip(('L0vv', 'Lss', 'Lsv', 'L1vv'), pair[0], pair[1]):
+                            mon.close(a, b, 1e-6, 'C08:algorithms-agree:' + nm, dt, tags, scale=max(sc, np.abs(b).max()))
+                        for nm, a, b in zip(('L0vv', 'Lss', 'Lsv', 'L1vv'), Ld, pair[1]):
+                            mon.close(a, b, 1e-6, 'C08:default=standard:' + nm, dt, tags, scale=max(sc, np.abs(b).max()))
+                    if prev is not None:
+                        steps = [np.abs(a - b).max() for a, b in zip(Ld[1:], prev[1:])]
+                        if kk >= 9 and prevstep is not None:
+                            for nm, st, pst, x in zip(('Lss', 'Lsv', 'L1vv'), steps, prevstep, Ld[1:]):
+                                mon.check(st <= max(3 * pst, 1e-6 * max(sc, np.abs(x).max())), 'C08:smooth-limit:' + nm,
+                                          lambda: 'step %.3e after %.3e at scaling 1e%d (scale %.3e) %s=%s %s' % (st, pst, kk, sc, nm, x.tolist(), desc), tags)
+                                mon.count('eval:C08:smooth-limit')
+                        if max(steps) > 1e-9 * sc: mon.sig([name, nth, k, kk, split])
+                        prevstep = steps
+                    prev = Ld
     mon.count('large_branch_lines', probe.hits['large'])
     mon.count('small_branch_lines', probe.hits['small'])
     diff.clearcache()
